@@ -46,3 +46,23 @@ func TestNestAfter(t *testing.T) {
 		}
 	})
 }
+
+// token spans cover exactly the non-whitespace bytes of a well-formed document, in order
+func TestTokenSpans(t *testing.T) {
+	rapid.Check(t, func(rt *rapid.T) {
+		b := Doc(rt, AnyProfile(rt))
+		last := 0
+		for _, sp := range tokenSpans(b) {
+			for _, c := range b[last:sp[0]] {
+				if c != ' ' && c != '\t' && c != '\n' && c != '\r' {
+					rt.Fatalf("byte %q between tokens in %q", c, b)
+				}
+			}
+			if sp[1] <= sp[0] {
+				rt.Fatalf("empty token in %q", b)
+			}
+			last = sp[1]
+		}
+		_ = MutateTokens(rt, b)
+	})
+}
